@@ -788,16 +788,16 @@ def run(ctx):
     NONE = [("none",)]
     MEMO = [("packrat", 128), ("packrat", None), ("lr", None)]
     mk_random = lambda rng, k: gen.gen_case(rng, gen.Cfg(**RANDOM_CFG), k)
-    run_names(ctx, "model-vs-real:random", gen_jobs(ctx, "rand", ctx.budget(5000, 50000), mk_random, NONE))
-    djobs = gen_jobs(ctx, "dir", ctx.budget(9000, 90000), directed_case, NONE)
+    run_names(ctx, "model-vs-real:random", gen_jobs(ctx, "rand", ctx.budget(12000, 50000), mk_random, NONE))
+    djobs = gen_jobs(ctx, "dir", ctx.budget(24000, 90000), directed_case, NONE)
     run_names(ctx, "model-vs-real:directed", djobs)
-    run_names(ctx, "model-vs-real:memo", gen_jobs(ctx, "memo", ctx.budget(1500, 12000), directed_case, MEMO, 4))
+    run_names(ctx, "model-vs-real:memo", gen_jobs(ctx, "memo", ctx.budget(4000, 12000), directed_case, MEMO, 4))
     mult = 5 if (ctx.broken and not ctx.fail_inputs) else 1
     if mult > 1:   # (d) a broken obligation / correspondence without a failing input yet: search wider
-        run_names(ctx, "search:directed", gen_jobs(ctx, "search", ctx.budget(9000, 90000) * 2, directed_case, NONE))
+        run_names(ctx, "search:directed", gen_jobs(ctx, "search", ctx.budget(24000, 90000) * 2, directed_case, NONE))
     # ---- constructed expectations ------------------------------------------------------------------
     rng = ctx.subrng("constructed")
-    ccases = [constructed_case(rng) for _ in range(ctx.budget(8000, 60000) * mult)]
+    ccases = [constructed_case(rng) for _ in range(ctx.budget(20000, 60000) * mult)]
     for c in ccases[::7]:
         c["modes"] = [("none",), ("packrat", 128), ("lr", None)]
     cres = common.pmap(constructed_job, ccases)
